@@ -364,6 +364,9 @@ func (ps *specParser) primary() (Expr, error) {
 		return EStr{t.s}, nil
 	case "id":
 		switch t.s {
+		case "forall", "exists":
+			ps.p--
+			return ps.expr()
 		case "true":
 			return EBool{true}, nil
 		case "false":
